@@ -400,11 +400,14 @@ static void worker(int w, int W, uint64_t start)
         static const int clsb[] = { LC_INT8, LC_STR32K, LC_BYT32K, LC_OBJ, LC_ARR };
         static vf_gen gb;
         DEPTHS = depths1; NDEPTHS = 1;
-        for (int root = VK_OBJ; root <= VK_ARR; root++) {
-            memset(&gb, 0, sizeof gb);
-            gb.root_kind = root; gb.max_tokens = 2; gb.classes = clsb; gb.nclasses = 5; gb.names = vf_names_abH_get(); gb.nnames = 3; gb.cb = on_doc_big;   /* names a, b, a 32768-byte name */
-            vf_gen_run(&gb);
-        }
+        static const size_t hl[] = { 32768, 65537, 65531, 65794 };      /* names a, b and one of 32768 / 65537 (thorough: 65531, 65794) bytes */
+        for (int h = 0; h < (vf_g.thorough ? 4 : 2); h++)
+            for (int root = VK_OBJ; root <= VK_ARR; root++) {
+                memset(&gb, 0, sizeof gb);
+                gb.root_kind = root; gb.max_tokens = 2; gb.classes = clsb; gb.nclasses = h ? 3 : 5; gb.names = vf_names_abH_len(hl[h]); gb.nnames = 3; gb.cb = on_doc_big;
+                if (h) { static const int clsh[] = { LC_INT8, LC_OBJ, LC_ARR }; gb.classes = clsh; }
+                vf_gen_run(&gb);
+            }
         DEPTHS = depths3; NDEPTHS = 3;
     }
     vf_tokenum e;
